@@ -168,7 +168,10 @@ def expand_nested(case, sn):
             lits.append(sn[p:e])
     inner = {}
     for l in lits:
-        inner[l] = str(build_encoder(case).unicode_to_latex(l[1:-1]))
+        try:
+            inner[l] = str(build_encoder(case).unicode_to_latex(l[1:-1]))
+        except Exception:
+            return case          # the inner text cannot be encoded at all: no expansion (to_line gives no model line)
     rules = []
     for r in case['rules']:
         if r['t'] == 'F' and r['f'][0] == 'nested':
@@ -205,7 +208,7 @@ def build_encoder(case, string_class=None):
     from pylatexenc import latexencode as le
     kw = dict(conversion_rules=build_rules(case), replacement_latex_protection=_prot_arg(case['prot']),
               unknown_char_policy=_pol_arg(case['pol']), non_ascii_only=case['nao'],
-              unknown_char_warning=bool(case.get('warn', False)))
+              unknown_char_warning=bool(case.get('warn', len(case.get('s', '')) % 3 == 0)))     # default flag on a third of the cases (logged to a NullHandler)
     if string_class is not None:
         kw['latex_string_class'] = string_class
     if case.get('partial') is not None:
@@ -546,6 +549,8 @@ def to_line(c):
         return None
     sn = unicodedata.normalize('NFC', c['s'])
     c = expand_nested(c, sn)
+    if has_nested(c):
+        return None
     alpha = sorted(set(ch for t in _texts_of_case(c, sn) for ch in t if ord(ch) > 127 and ch.isalpha()))
     part = '-'
     if c.get('partial') is not None:
